@@ -413,12 +413,16 @@ class Ctx:
         self.known_seen = {}          # cls -> example text
         self.level = "proof"
         self._distinct = set()
+        self.drift = []               # anchor drift (tools/anchors.py): mirrored Rust items whose text changed
 
     def quick(self):
         return self.tier == "quick"
 
     def count(self, n):
-        return n if self.tier == "quick" else n * int(os.environ.get("VERIF_THOROUGH_FACTOR", "20"))
+        if self.tier == "quick":
+            # an edited anchor gets a larger correspondence run than the unchanged tree (DESIGN §4.3); never an alarm
+            return n * (int(os.environ.get("VERIF_DRIFT_FACTOR", "3")) if self.drift else 1)
+        return n * int(os.environ.get("VERIF_THOROUGH_FACTOR", "20"))
 
     def note_case(self, key, nontrivial):
         self.cov["evaluations"] += 1
@@ -462,7 +466,7 @@ class Ctx:
                                  "correspondence = differential testing on the generated cases only"],
                    theorems=[dict(name=n, axioms=a) for n, a in proof["theorems"]],
                    proof_problems=proof["problems"], notes=self.notes,
-                   known_findings_seen=sorted(self.known_seen))
+                   known_findings_seen=sorted(self.known_seen), anchor_drift=self.drift[:60])
         if cov["distinct_nontrivial"] < 2 and cov["evaluations"] > 0:
             cov["distinct_nontrivial"] = cov["distinct_nontrivial"]
         ev = dict(property_id=self.pid, tier=self.tier, seed=self.seed, level=self.level, coverage=cov,
